@@ -55,7 +55,7 @@ _LABEL = re.compile(r'//\s*@([A-Z0-9,]+)(?::|\s+)?([\w.\-]*)')
 class Failure:
     def __init__(self):
         self.kind = ''; self.message = ''; self.owner = None; self.props = []; self.label = ''
-        self.gen_line = 0; self.gen_text = ''; self.origin = None; self.clause_line = 0; self.clause_text = ''
+        self.gen_line = 0; self.gen_text = ''; self.origin = None; self.clause_line = 0; self.clause_text = ''; self.clause_owner = 'unknown'
         self.rendered = ''
     def ident(self):
         o = self.owner or '?'
@@ -252,6 +252,7 @@ def run_unit(unit, repo_src=None, out_dir=None, extra_args=(), rlimit_mult=None,
                 labels.append((m.group(1).split(','), m.group(2)))
             if sp in sec and not f.clause_text:
                 f.clause_line = li + 1; f.clause_text = tx
+                f.clause_owner = (g.owner[li] if 0 <= li < len(g.owner) else None)
         # the primary span of a failed postcondition is the clause; of a failed precondition it is the call
         if kind == 'postcondition' and prim:
             li, tx = line_info(prim[0])
